@@ -141,6 +141,9 @@ extern uint64_t cmb_priorityqueue_position(const struct cmb_priorityqueue *pqp,
                                            uint64_t handle);
 
 
+/** @brief Internal: record the new length and signal the putters' waiting room */
+extern void cmi_priorityqueue_shortened(struct cmb_priorityqueue *pqp);
+
 /**
  * @brief Cancel an object in the queue
  *
@@ -156,6 +159,10 @@ static inline bool cmb_priorityqueue_cancel(struct cmb_priorityqueue *pqp,
 
     struct cmi_hashheap *hp = &(pqp->queue);
     const bool found = cmi_hashheap_remove(hp, handle);
+    if (found) {
+        /* The queue got shorter: record it, and a blocked putter may proceed */
+        cmi_priorityqueue_shortened(pqp);
+    }
 
     return found;
 }
